@@ -1,22 +1,22 @@
 SPECIFICATION Spec
 CONSTANTS
-  MaxPg = 3
-  MaxOps = 3
+  MaxPg = 2
+  MaxOps = 5
   BlockOf <- BlockL1
   LockPg = 0
-  AllowWAL = FALSE
-  FinModes = {"DELETE", "TRUNCATE", "PERSIST"}
-  AllowSpill = TRUE
-  AllowBeyond = TRUE
+  AllowWAL = TRUE
+  FinModes = {"DELETE", "PERSIST"}
+  AllowSpill = FALSE
+  AllowBeyond = FALSE
   FixBeyond = TRUE
-  AllowNoSync = TRUE
+  AllowNoSync = FALSE
   FixOOB = TRUE
   FixFirstRb = TRUE
   AllowCrash = FALSE
   FixJournalNoPS = TRUE
   FixModeOnOpen = TRUE
   AllowFreeReuse = FALSE
-  AllowFromWal = FALSE
+  AllowFromWal = TRUE
   FixModeSwitch = TRUE
   AllowDropDB = FALSE
   AllowRetain = FALSE
